@@ -21,11 +21,12 @@ class State:
 
     def fork(s):
         n = State()
-        n.env = {k: _cp(v) for k, v in s.env.items()}
-        n.stack = [{k: _cp(v) for k, v in e.items()} for e in s.stack]
+        memo = {}
+        n.env = {k: _cp(v, memo) for k, v in s.env.items()}
+        n.stack = [{k: _cp(v, memo) for k, v in e.items()} for e in s.stack]
         n.heap = dict(s.heap)
         n.pc = list(s.pc)
-        n.ghost = {k: _cp(v) for k, v in s.ghost.items()}
+        n.ghost = {k: _cp(v, memo) for k, v in s.ghost.items()}
         n.trace = list(s.trace)
         n.written = set(s.written)
         return n
@@ -36,15 +37,27 @@ class State:
         s.pc.append(f)
 
 
-def _cp(v):
-    if isinstance(v, VDict):
-        return VDict({k: _cp(x) for k, x in v.d.items()})
-    if isinstance(v, VCList):
-        return VCList([_cp(x) for x in v.items])
+def _cp(v, memo=None):
+    """copy mutable concrete structures, preserving aliasing between frames"""
+    if memo is None:
+        memo = {}
+    if isinstance(v, (VDict, VCList, VPy)):
+        if id(v) in memo:
+            return memo[id(v)]
+        if isinstance(v, VDict):
+            n = VDict(); memo[id(v)] = n
+            n.d = {k: _cp(x, memo) for k, x in v.d.items()}
+        elif isinstance(v, VCList):
+            n = VCList([]); memo[id(v)] = n
+            n.items = [_cp(x, memo) for x in v.items]
+        else:
+            n = VPy(v.cls); memo[id(v)] = n
+            n.attrs = {k: _cp(x, memo) for k, x in v.attrs.items()}
+        return n
     if isinstance(v, dict):
-        return {k: _cp(x) for k, x in v.items()}
+        return {k: _cp(x, memo) for k, x in v.items()}
     if isinstance(v, list):
-        return [_cp(x) for x in v]
+        return [_cp(x, memo) for x in v]
     return v
 
 
